@@ -71,7 +71,7 @@ Next == UNCHANGED st
 Probe ==
   LET t == Inst(st, 1, 0, FALSE).t
       acc == Admitted(t)
-      sharp == acc /\ ~HoldChord(t) /\ ~SwitchBeforeOthers(t) /\ \A i \in DOMAIN Envs4 : OrderedOk(t, Envs4[i])
+      sharp == acc /\ ~SwitchBeforeOthers(t) /\ \A i \in DOMAIN Envs4 : OrderedOk(t, Envs4[i])
   IN PrintT(<<"ATERM", ToJson([s |-> ShapeTxt(st), term |-> t, final |-> Final(t, Lay), chord |-> HasChord(t), acc |-> acc,
                                e2e |-> sharp, acs |-> TermOuts(t),
                                held |-> [i \in DOMAIN Envs4 |-> HeldOut(t, Envs4[i])]])>>)
